@@ -3,6 +3,7 @@ from hir import (nodes, walk, fn_body, callee, call_args, last, line_of, peel, p
                  pat_variant, pat_bindings, pat_strip)
 from engines import matches_on, arm_alternatives, ty_is, ty_mentions
 from flow import Flow, uncond_nodes
+from hir import ppat
 import nonint
 import irp
 import irtpl
@@ -280,6 +281,23 @@ def implicit_ret(F, rep):
     fn = F.fn("sylt_compiler::intermediate::IRCodeGen::expression")
     pops = [c for c in nodes(fn_body(fn), "MethodCall") if c["m"] == "pop" and "body" in pp(c["recv"])]
     rep.ob("IMPLICIT-RET", "last-statement", len(pops) >= 1, "the value returned implicitly is the body's last statement (body.pop())", fn["sp"])
+    # .. whatever expression it is: the arm that turns the trailing expression statement into a return has no condition on the
+    # expression (an `if` without `else` included - `ret if c do f() end` and a trailing `if c do f() end` are the same bytes)
+    guarded = []
+    n_split = 0
+    for m in nodes(fn_body(fn), "Match"):
+        if "Option<" not in (m.get("scrut_ty") or "") or "Statement" not in (m.get("scrut_ty") or ""):
+            continue
+        hits = [a for a in m["arms"] if "StatementExpression" in ppat(a["pat"]) and any(callee(c) == "sylt_compiler::intermediate::IR::Return" for c in nodes(a["body"], "Call"))]
+        if not hits:
+            continue
+        n_split += 1
+        guarded += [a for a in hits if a.get("guard") is not None]
+    rep.ob("IMPLICIT-RET", "every-trailing-expression", n_split >= 1 and not guarded,
+           "the trailing expression statement of a function body becomes a return whatever the expression is" if n_split and not guarded else
+           "the arm of the lowering that turns a trailing expression statement into a return %s: for the expressions it leaves out, `ret e` "
+           "and a trailing `e` give different Lua" % ("is guarded (`%s`)" % pp(guarded[0]["guard"])[:60] if guarded else "was not found"),
+           line_of(guarded[0]) if guarded else fn["sp"])
     # the checker treats both the same way: expression_block's value is unified with the returns
     rep.info("typing side: TypeChecker::expression unifies the implicit value with explicit returns in the Function arm (checked by C03 obligations)")
 
